@@ -522,6 +522,25 @@ class Gen:
                     nbytes = rng.choice([1, 2, 3, 4] if not self.o.java_safe else [1, 2, 4])
                     fs = ["%s: %d" % (self.fresh("s"), 8 * nbytes)]
                     self.features.add("inherit_const_size")
+                elif want_payload and rng.random() < 0.3:
+                    # a middle packet that adds no named field: a pure alias `{ _payload_ }`, or anonymous framing only
+                    # (`_fixed_`, `_reserved_`, `_size_(_payload_)`) in front of its payload — back ends that skip
+                    # "alias" children when they dispatch must still consume the framing octets
+                    fs = []
+                    if rng.random() < 0.65:
+                        kinds = ["fixed", "reserved", "size"] if not self.o.java_safe else ["fixed", "reserved"]
+                        rng.shuffle(kinds)
+                        for kd in kinds[:rng.randint(1, len(kinds))]:
+                            if kd == "fixed":
+                                fs.append("_fixed_ = %s : 8" % self.lit(rng.randrange(256)))
+                            elif kd == "reserved":
+                                fs.append("_reserved_: 8")
+                            else:
+                                fs.append("_size_(_payload_): %d" % rng.choice([8, 16]))
+                        self.features.add("inherit_framing_only")
+                    else:
+                        self.features.add("inherit_pure_alias")
+                    fs = fs + ["_payload_"]
                 elif want_payload and self.o.copy_parents:
                     # H26: a parent with non-Copy data fields makes the emitted
                     # `TryFrom<&Child> for Parent` move out of a borrow (rustc E0507)
@@ -906,6 +925,63 @@ def composed(rng, n):
     for _ in range(n):
         c = _Compose(rng).build()
         out.append(rng.choice(["little", "big"]) + "_endian_packets\n\n" + "\n".join(c.decls))
+    return out
+
+
+def framed(rng, java_safe=False):
+    """Three-level hierarchies whose MIDDLE packet adds no named field: a pure alias `{ _payload_ }`, or anonymous
+    framing only (`_fixed_`, `_reserved_`, `_size_(_payload_)`) in front of its payload, with one or two grandchildren.
+    A back end that skips "alias" children when it dispatches must still consume the framing octets.  Returns PDL texts."""
+    out = []
+    framings = [[], ["_fixed_ = 0x7e : 8"], ["_reserved_ : 8"], ["_fixed_ = 0x5a : 8", "_reserved_ : 8"]]
+    if not java_safe:
+        framings += [["_size_(_payload_) : 8"], ["_fixed_ = 1 : 4", "_reserved_ : 4", "_size_(_payload_) : 16"]]
+    for n, fr in enumerate(framings):
+        endian = "little" if (n + rng.randrange(2)) % 2 == 0 else "big"
+        sized = rng.random() < 0.5 and not java_safe
+        root = ["kind : 8"] + (["_size_(_payload_) : 8"] if sized else []) + ["_payload_"]
+        mid = fr + ["_payload_"]
+        g1 = ["level : 8", "text : 8[]"] if not java_safe else ["level : 8", "code : 16"]
+        g2 = ["code : 16"]
+        t = "%s_endian_packets\n\n" % endian
+        t += "packet Tr%d {\n  %s\n}\n" % (n, ",\n  ".join(root))
+        t += "packet Mid%d : Tr%d (kind = %d) {\n  %s\n}\n" % (n, n, n + 1, ",\n  ".join(mid))
+        t += "packet Ga%d : Mid%d {\n  %s\n}\n" % (n, n, ",\n  ".join(g1))
+        if rng.random() < 0.5:
+            # a second family under the same root, told apart by the root's key
+            t += "packet Oth%d : Tr%d (kind = %d) {\n  %s\n}\n" % (n, n, n + 40, ",\n  ".join(g2))
+        out.append(t)
+    return out
+
+
+def optional_in_sized(rng, rust_only=True):
+    """Optional fields (scalar, enum, struct of static and of dynamic size) inside a container whose octet size is
+    written to a size field by the encoder: a child carried in a parent's `_size_(_payload_)` payload, a struct
+    element of an array delimited by `_size_` (or, Rust class only, `_elementsize_`).  The encoded length of the
+    optional field then feeds a size field.  Returns PDL texts."""
+    out = []
+    for i in range(3):
+        endian = rng.choice(["little", "big"])
+        decls = ["struct In%d {\n  u: 8,\n  v: 16\n}\n" % i,
+                 "struct Dy%d {\n  _count_(w): 8,\n  w: 8[]\n}\n" % i,
+                 "enum Eo%d : 16 {\n  A = 1,\n  B = 0x200,\n  Z = ..\n}\n" % i]
+        kinds = ["In%d" % i, "Dy%d" % i, "Eo%d" % i, "%d" % rng.choice([8, 24, 32])]
+        rng.shuffle(kinds)
+        def opt_fields(tag, n):
+            flags = ["%sc%d: 1" % (tag, j) for j in range(n)] + ["_reserved_: %d" % (8 - n)]
+            opts = ["%so%d: %s if %sc%d = %d" % (tag, j, kinds[j % len(kinds)], tag, j, rng.choice([0, 1])) for j in range(n)]
+            return flags + opts
+        # (a) a child in a sized parent payload
+        sw = rng.choice([8, 16])
+        decls.append("packet Sp%d {\n  k: 8,\n  _size_(_payload_): %d,\n  _payload_%s\n}\n" %
+                     (i, sw, rng.choice(["", ",\n  crc: 16"])))
+        decls.append("packet Sc%d : Sp%d (k = %d) {\n  %s,\n  t: 8\n}\n" % (i, i, i + 1, ",\n  ".join(opt_fields("a", rng.choice([1, 2, 3])))))
+        # (b) struct elements of a size-delimited array
+        decls.append("struct Se%d {\n  %s\n}\n" % (i, ",\n  ".join(opt_fields("b", rng.choice([1, 2])))))
+        decls.append("packet Sa%d {\n  _size_(x): %d,\n  x: Se%d[],\n  z: 8\n}\n" % (i, rng.choice([8, 16]), i))
+        if rust_only and rng.random() < 0.7:
+            decls.append("packet Sx%d {\n  _count_(y): 4,\n  _elementsize_(y): 4,\n  y: Se%d[]\n}\n" % (i, i))
+        out.append("%s_endian_packets\n\n%s" % (endian, "\n".join(decls)))
     return out
 
 
